@@ -1,5 +1,5 @@
 (* Extraction of the C08 model: ExtrOcamlBasic only, no Extract Constant.  The arithmetic record
    `ops` is built by the OCaml driver from OCaml's float operations. *)
 Require Import ExtrOcamlBasic.
-From SharkV Require Import C08Model.
-Extraction "c08_model.ml" step check_kkt fval.
+From SharkV Require Import C08Model C08Reshrink C08Mutators.
+Extraction "c08_model.ml" step check_kkt fval reshrink_due reshrink reshrink_stale mstep.
